@@ -34,7 +34,8 @@ PROPS = {
             "CV.Onboarding.kept_balance", "CV.Onboarding.kept_supply",
             "CV.Onboarding.moduleInv_step", "CV.Onboarding.moduleInv_run", "CV.Onboarding.history",
             "CV.Onboarding.conservation_sequence", "CV.Onboarding.second_transfer_no_swap",
-            "CV.Onboarding.ack_monitor", "CV.Onboarding.conservation_monitor", "CV.Bank.applyAll_flow",
+            "CV.Onboarding.ack_monitor", "CV.Onboarding.conservation_monitor", "CV.Onboarding.unkept_monitor",
+            "CV.Onboarding.prior_monitor", "CV.Bank.applyAll_flow",
         ],
         comps={"outcome", "resp", "bank", "pools", "pairs", "tok", "macc"},
         assumptions=_OB_ASSUME,
